@@ -51,8 +51,9 @@ claim("C03", "proof",
 
 claim("C15", "proof",
       "The checked-in front-end tables (read through verifdump ftables) and the syntactic part of spec/gocc2.ebnf are translated to Gallina "
-      "on every run; the Coq kernel evaluates the verified validator lr_valid(spec grammar, tables, annotation) by vm_compute, so the "
-      "Sound/Complete theorems (Properties/C15.v) hold for these very tables: for ALL token sequences, accepted <=> sentence of the spec, "
+      "on every run; the Coq kernel evaluates the verified validators valid_backward / valid_forward(spec grammar, tables, annotation) and the "
+      "gate condition (recovery gated on canRecover, no recovering state: the tables shift the keyword error as an ordinary terminal) by "
+      "vm_compute, so the Sound (LR/SoundGated.v) / Complete theorems (Properties/C15.v) hold for these very tables: for ALL token sequences, accepted <=> sentence of the spec, "
       "reductions are productions of the spec (the tables' productions are matched one-to-one with the spec's by head and body). The real "
       "front-end Parse loop (after the fix gating recovery on canRecover) is compared with the model on derivations of the spec and their "
       "mutations; Earley on the spec is the oracle.",
@@ -82,7 +83,9 @@ claim("C05", "proof",
       "shift if present, else the least production; single candidates unchanged; conflict recorded iff two distinct actions compete; result "
       "independent of item order; refusal (panic) iff Accept competes. On every run each compiled action-table cell of each conflicting "
       "grammar is re-derived with the extracted row_action from gocc's dumped item sets, dumped conflict sets are compared, and the -a "
-      "parser is compared with the Parse model (verdict + full reduction sequence).",
+      "parser is compared with the Parse model (verdict + full reduction sequence). For EVERY grammar: LR/GenAuto.v is a Gallina model of the "
+      "generator in mode -a, proved to build the canonical LR(1) collection and to write in every cell the winner of that fold (C05_every_grammar_*); "
+      "it is compared with gocc -a on every conflicting grammar of the run (item sets, numbering, announced count, refusal, compiled tables).",
       LR_NOTE, "Rocq proof of the resolution fold + per-cell translation validation with the extracted verified function + differential correspondence", "6 C05")
 claim("C06", "proof",
       "Coq theorem C06_exact (Properties/C06.v): for every table passing lr_valid and the canonicity/productivity checks x_checks, a syntax "
@@ -176,13 +179,20 @@ claim("C13", "proof",
       "Coq kernel; scanner modelled by hand (tables for unicode.IsLetter etc. generated from the toolchain); layout only at token boundaries.",
       "Rocq proof (simulation between scanner runs) + extracted-model correspondence + metamorphic run of the tool", "6 C13")
 claim("C14", "proof",
-      "Composition of C13 and C15 restated in Properties/C14.v: the front-end parser on the shipped tables accepts ONLY sentences of the spec "
-      "grammar, for all token sequences, with recovery gated off (nothing is skipped: the parse tree's yield is the whole token sequence), and "
-      "the scanner hands tokens over in file order. The semantic checks (undefined production / regular definition, duplicate definition) are Go "
-      "code outside the models: explored with token-level mutants whose ill-formedness is decided from the real scanner's token stream "
-      "(Earley on the spec + the semantic rules): the binary must exit non-zero, and the model front end must agree with spec membership.",
+      "Properties/C14.v over a model of the WHOLE front end: scanner (FScan) ; parser (Parse.parse on the shipped tables: accepted => sentence "
+      "of the spec, for all token sequences, by LR/SoundGated.v: the tables shift the keyword error as an ordinary terminal, recovery is gated "
+      "off) ; semantic checks (Front/Sem.v, a model of LexProdMap.Add / ast.consistent / UndefinedRegDef / NewSymbols / "
+      "UpdateStringLitTokens / the recursion check, in the order main.go runs them). Theorems: the semantic verdict is Ok IFF a declarative "
+      "well-formedness predicate holds (no duplicate lexical identifier, every regular definition referred to is defined, no recursion "
+      "reachable from a token, every production name used is defined, no reserved name); the definitions the model cuts out of the token "
+      "list ARE the definition nodes of the parse tree (heads and bodies) for every grammar passing the boolean side condition cut_ok, which "
+      "the kernel evaluates on the spec grammar on every run together with valid_backward / valid_forward / gate on the shipped tables; "
+      "accepted => well formed sentence, and conversely. The extracted model's verdict is compared with gocc's exit status in BOTH directions "
+      "on unmodified grammars, token-level mutants and 26 kinds of semantic mutants; independently, ill-formedness decided from the real "
+      "scanner's token stream (Earley on the spec + the semantic rules in the harness) must imply a non-zero exit.",
       LR_NOTE + " Character-level damage is outside the property's token-level quantifier (see notes/FSCAN_NOTES.md).",
-      "Rocq theorems (validated shipped tables, scanner model) + mutation-based exploration of the semantic checks", "6 C14")
+      "Rocq theorems over a model of scanner, shipped parse tables and semantic checks + two-sided correspondence of the extracted model with "
+      "the binary's exit status on mutants", "6 C14")
 
 ALL = ["C%02d" % i for i in range(1, 21)]
 NOT_YET = "framework under construction: check for this property not built yet (planned, see DESIGN.md section 6)"
